@@ -25,6 +25,9 @@ TYPES = {
     "DI3": dict(res=[("D", ["p", "q"]), ("D", ["p", "q"]), ("D", ["p", "q"])], edges=[(0, 1), (1, 2)]),
     "MID7": dict(res=[("S", ["a"]), ("S", ["a"]), ("S", ["a"]), ("K", ["k"]), ("S", ["a"]), ("S", ["a"]), ("S", ["a"])],
                  edges=[(i, i + 1) for i in range(6)]),
+    # a di-block numbered per block: residue ids restart, residues are told apart by (resid, resname)
+    "DUPB": dict(res=[("S", ["a", "c"]), ("S", ["a", "c"]), ("B", ["a", "c"]), ("B", ["a", "c"])], resids=[1, 2, 1, 2],
+                 edges=[(0, 1), (1, 2), (2, 3)]),
     "MIX3": dict(res=[("S", ["a"]), ("D", ["p", "q"]), ("T", ["x", "y", "z"])], edges=[(0, 1), (1, 2)]),
 }
 DEFAULT_VOLUMES = {"W": 0.5, "S": 0.5, "B": 1.0, "D": 0.5, "T": 1.0, "K": 0.5}
@@ -36,12 +39,13 @@ def type_atoms(tdef):
     atoms, bonds, first = [], [], {}
     idx = 0
     intra = tdef.get("intra")     # optional {atom name: [bonded atom names]} shared by all residues: bonds by name, not by listing order
+    resids = tdef.get("resids") or list(range(1, len(tdef["res"]) + 1))    # residue ids need not be unique across residue names
     for r, (resname, names) in enumerate(tdef["res"]):
         prev = None
         byname = {}
         for an in names:
             idx += 1
-            atoms.append((idx, r + 1, resname, an))
+            atoms.append((idx, resids[r], resname, an))
             byname[an] = idx
             if prev is None:
                 first[r] = idx
